@@ -36,12 +36,14 @@ ResetVars ==
   /\ cstate' = "open" /\ cpc' = "run"
   /\ fdir' = [f \in Fids |-> f \in InitFids]
   /\ sstop' = FALSE
+  /\ bound' = [f \in Fids |-> f \in InitFids]
   /\ cancelled' = {} /\ badcall' = FALSE /\ crashed' = FALSE
   /\ destroyed' = [f \in Fids |-> 0]
   /\ creator' = [f \in Fids |-> 0]
   /\ calls' = <<>>
   /\ extra' = [r \in ReqIds |-> FALSE]
   /\ closedn' = 0
+  /\ made' = [f \in Fids |-> IF f \in InitFids THEN 1 ELSE 0]
 
 TraceInit == Init /\ l = 1 /\ failed = FALSE /\ case = 0 /\ done = FALSE
 
